@@ -573,7 +573,7 @@ impl<'a> Parser<'a> {
                         ParserErrorType::ExpectedRightArrow
                     )?;
 
-                    let json_access = JsonAccess::from_linear(json_access_parts);
+                    let json_access = JsonAccess::from_linear(json_access_parts).ok_or_else(|| self.create_error(ParserErrorType::ExpectedJsonColumnPartStart))?;
                     columns.push(self.parse_define_column(ColumnParsing::Json(json_access))?);
                 }
                 Token::RightParentheses => {
